@@ -4,7 +4,7 @@
    tq / fq / wq project a point.  crps_exact_line / crps_trapz_line / brier_line are the code-faithful
    models (model/Cdf.v) of crps_cdf_exact / crps_cdf_trapz / the Brier decomposition; gen_piece_integral
    is regenerated from integrate_square_piecewise_linear. *)
-From V Require Import lib.Tree gen.Gen_C07_kern model.Cdf model.C07 proofs.C07 proofs.C07_int.
+From V Require Import lib.Tree gen.Gen_C07_kern model.Cdf model.C07 proofs.C07 proofs.C07_int proofs.C07_fin.
 From Coq Require Import Reals Qreals.
 From Coquelicot Require Import Coquelicot.
 Open Scope Q_scope.
@@ -148,6 +148,15 @@ Theorem C07_nan_blanks_own_case : forall ft wt add op (cs : list fcase) rs i c,
   nth_error cs i = Some c -> has_nan (c_f c) = true -> nth_error rs i = Some (XNaN, XNaN, XNaN).
 Proof. exact crps_nan_in_cases. Qed.
 Print Assumptions C07_nan_blanks_own_case.
+
+(* conversely: a NaN-free forecast case with at least two (increasing) thresholds, ordinates in [0,1] and a finite
+   observation gets three finite scores on the common grid, whatever the other cases contain (no weight supplied) *)
+Theorem C07_nan_free_case_is_finite : forall ft cs add op (f : list Q) (y : Q),
+  length f = length ft -> (2 <= length ft)%nat -> Cdf.increasing ft = true -> forallb in01 (fins f) = true ->
+  let r := crps_case (union_grid ft None cs add) ft None op (fins f, XFin y, None) in
+  exists t u o : Q, fst (fst r) =x= XFin t /\ snd (fst r) =x= XFin u /\ snd r =x= XFin o.
+Proof. exact crps_case_finite_on_union_grid. Qed.
+Print Assumptions C07_nan_free_case_is_finite.
 
 (* the common grid is increasing and contains every finite observation, hence the hypothesis of C07_exact_is_integral *)
 Theorem C07_grid_increasing : forall ft wt cs add, Cdf.increasing (union_grid ft wt cs add) = true.
